@@ -3,7 +3,7 @@
  * JSON line per command with what libdbus did.  It decides nothing.
  *
  *  C20:  reg <path> <id> <fallback>   unreg <path>   ocall <path> <ids that handle, csv or ->   children <path>
- *  C17:  call <tag> <timeout_ms> <notify 0/1>   reply <tag> <ret|err|dup|bogus>   cancel <tag>   block <tag>
+ *  C17:  call <tag> <timeout_ms> <notify 0/1> [serial]   reply <tag> <ret|err|dup|bogus>   cancel <tag>   block <tag>
  *        pump <ms>   peerclose   poll <tag>   steal <tag>   fetch (read into the incoming queue, no dispatch)
  */
 #include <config.h>
@@ -116,13 +116,13 @@ static DBusHandlerResult peer_filter (DBusConnection *c, DBusMessage *m, void *d
 static void describe (int tag)
 {
   DBusPendingCall *pc = calls[tag].pc;
-  printf ("{\"tag\":%d,\"serial\":%u,\"completed\":%d,\"notified\":%d", tag, calls[tag].serial,
+  printf ("{\"tag\":%d,\"serial\":%d,\"completed\":%d,\"notified\":%d", tag, (int) calls[tag].serial,
           pc ? (int) dbus_pending_call_get_completed (pc) : -1, calls[tag].notified);
 }
 static void put_reply (DBusMessage *r)
 {
   if (!r) { printf (",\"reply\":\"none\",\"rs\":0,\"err\":[],\"tok\":-1"); return; }
-  printf (",\"reply\":\"%s\",\"rs\":%u,\"err\":", dbus_message_get_type (r) == DBUS_MESSAGE_TYPE_ERROR ? "err" : "ret", dbus_message_get_reply_serial (r));
+  printf (",\"reply\":\"%s\",\"rs\":%d,\"err\":", dbus_message_get_type (r) == DBUS_MESSAGE_TYPE_ERROR ? "err" : "ret", (int) dbus_message_get_reply_serial (r));
   put_str (dbus_message_get_error_name (r));
   { dbus_int32_t v = -1; dbus_message_get_args (r, NULL, DBUS_TYPE_INT32, &v, DBUS_TYPE_INVALID); printf (",\"tok\":%d", v); }
 }
@@ -157,7 +157,8 @@ int main (int argc, char **argv)
       size_t l = strlen (line);
       while (l && (line[l - 1] == '\n' || line[l - 1] == '\r')) line[--l] = 0;
       if (!l) continue;
-      cmd = strtok (line, " "); a1 = strtok (NULL, " "); a2 = strtok (NULL, " "); a3 = strtok (NULL, " ");
+      char *a4;
+      cmd = strtok (line, " "); a1 = strtok (NULL, " "); a2 = strtok (NULL, " "); a3 = strtok (NULL, " "); a4 = strtok (NULL, " ");
       if (!strcmp (cmd, "reg"))
         {
           DBusError e2 = DBUS_ERROR_INIT;
@@ -185,13 +186,15 @@ int main (int argc, char **argv)
           dbus_int32_t t = tag;
           dbus_message_append_args (m, DBUS_TYPE_INT32, &t, DBUS_TYPE_INVALID);
           calls[tag].notified = 0;
+          /* an application may choose the serial itself (a connection that has sent 2^31 messages gets there too) */
+          if (a4) dbus_message_set_serial (m, (dbus_uint32_t) strtoul (a4, NULL, 10));
           dbus_connection_send_with_reply (under_test, m, &calls[tag].pc, atoi (a2));
           calls[tag].serial = dbus_message_get_serial (m);
           calls[tag].has_notify = atoi (a3);
           if (calls[tag].pc && atoi (a3)) dbus_pending_call_set_notify (calls[tag].pc, notify_cb, (void *) (long) tag, NULL);
           dbus_message_unref (m);
           { long t0 = now_ms (); while (!peer_seen[tag] && dbus_connection_get_is_connected (peer) && now_ms () - t0 < 1000) pump (0); }
-          describe (tag); printf (",\"seen\":%u}\n", peer_seen[tag]);
+          describe (tag); printf (",\"seen\":%d}\n", (int) peer_seen[tag]);
         }
       else if (!strcmp (cmd, "reply"))
         {
